@@ -124,7 +124,7 @@ def build(chk):
 
 
 def run(chk):
-    chk.trusted += ['hand model Model/Lz4Model.v of lz4::decompress, read_sequence, read_literal, overrun_copy, safe_copy, fast_copy',
+    chk.trusted += ['hand model Model/DecompModel.v of Face::Table::Table / decompress', 'hand model Model/Lz4Model.v of lz4::decompress, read_sequence, read_literal, overrun_copy, safe_copy, fast_copy',
                     'regex extraction of MINMATCH / LASTLITERALS / MINCODA / MINSRCSIZE and the compiled sizeof(unsigned long) (Gen/GenLz4.v)']
     chk.assumptions += ['pointers do not wrap around the address space; size_t is 64 bits, unsigned long is 8 bytes (checked by tie A)',
                         'the reference LZ4 block decoder is the sequence semantics of the block format: last sequence literals-only, ending exactly at the end of input']
@@ -165,6 +165,49 @@ def run(chk):
         if mres != ires[:len(mres)] or (ires[:1] == ['R'] and mres[:3] != ires[:3]):
             ndis += 1
             chk.tie_break('correspondence:lz4', 'model %r vs implementation %r' % (m, i), c)
+    # --- Face::Table over generated bytes (the constructor + decompress) against Model/DecompModel.v: plain / dropped / replaced by the data,
+    # two-sided.  Valid tables (data beginning with the version word), wrong version word, every small announced size, one off the true
+    # size, other schemes, tables shorter than the 20 bytes decompress wants, versions below the first compressed one
+    import struct as _s
+    tb_cases = []
+    rngt = chk.rng
+    for k in range(4000 if chk.tier == 'thorough' else 500):
+        ver = rngt.choice((0x00050000, 0x00030000, 0x00050001, 0x00020000))
+        vmin = rngt.choice((0x00050000, 0x00030000, 0, 0, 0, 0x00020000))
+        n = rngt.choice((4, 5, 8, 12, 13, 14, 20)) if rngt.random() < 0.25 else rngt.choice((24, 40, 100, 300, 1500))
+        data = bytearray(_s.pack('>I', ver if rngt.random() < 0.85 else ver ^ rngt.choice((1, 0x10000, 0x80000000))))
+        while len(data) < n:
+            data += bytes(rngt.choice((b'ab', b'abcabc', bytes([rngt.randrange(256)]), b'\0\0\0\0', bytes(data[-6:]))))
+        data = list(data[:n])
+        blk = L.encode_matches(data, L.fast_matches(data)) if rngt.random() < 0.8 else L.encode_matches(data, [])
+        r = rngt.random()
+        ann = len(data)
+        scheme = 1
+        if r < 0.25: ann = rngt.choice((0, 1, 2, 3, 4, 5, 8))
+        elif r < 0.37: ann = max(0, len(data) + rngt.choice((-1, 1, -4, 4)))
+        elif r < 0.45: scheme = rngt.choice((0, 2, 3, 31))
+        body = bytes(blk)
+        if rngt.random() < 0.1: body = body[:rngt.randrange(0, len(body) + 1)]
+        if rngt.random() < 0.1: body = bytes(rngt.randrange(256) for _ in range(rngt.choice((0, 3, 11, 12, 13, 30))))
+        t = _s.pack('>II', ver, (scheme << 27) | ann) + body
+        if rngt.random() < 0.06: t = t[:rngt.choice((0, 3, 4, 7, 8, 12, 19, 20))]
+        tb_cases.append('x%d table %d %s' % (k, vmin, t.hex() or '-'))
+    tml, til2, _ = vlib.run_pair(mexe, hexe, tb_cases)
+    tdist = {}
+    for c, m, i in zip(tb_cases, tml, til2):
+        if i is None or m is None:
+            chk.tie_break('harness', 'no result line', c[:200]); continue
+        ti, tm = i.split()[1:], m.split()[1:]
+        kind = ' '.join(ti[:2])
+        tdist[kind] = tdist.get(kind, 0) + 1
+        classes.add(('table', kind, min(len(c.split()[3]) // 64, 6)))
+        if 'ABORT' in ti[:2] or 'LEDGER' in ti:
+            chk.violation('c14:table:%s' % c.split()[3][:60], 'Face::Table over %d bytes: %s' % (len(c.split()[3]) // 2, i[:300]), dict(case=c, got=i[:600], model=m[:300])); continue
+        if ti != tm:
+            ndis += 1
+            chk.tie_break('correspondence:table', 'model %r vs implementation %r' % (m[:200], i[:200]), c[:600])
+    dist['Face::Table over generated bytes'] = len(tb_cases)
+    chk.notes.append('Face::Table verdicts: %s' % ', '.join('%s %d' % kv for kv in sorted(tdist.items())))
     # --- transparency at the level of the font: the Awami test font with Silf (version 5) and Glat (version 3) stored plain against twins
     # whose Silf or Glat is stored as a valid LZ4 block of the same bytes -- every match the one-pass encoder finds, half of them, and
     # blocks that are only 1 .. 16 bytes shorter than the data ("shorter than the data" is all the property asks of an encoding)
@@ -262,6 +305,11 @@ def replay(chk, obj):
     case = obj.get('replay', {}).get('case') or (obj.get('broken') or [{}])[-1].get('case')
     if not case:
         print('no case in replay file'); return 1
+    if case.split()[1] == 'api':
+        from props import apiseq
+        _, il, err = vlib.run_pair(None, apiseq.build('asan'), [case], shards=1)
+        print(case[:300]); print(' impl :', (il[0] or '')[:600]); print(err[-1500:])
+        return 1 if (il[0] is None or 'ABORT' in il[0].split()[1:3]) else 0
     ml, il, err = vlib.run_pair(mexe, hexe, [case], shards=1)
     print(case[:300]); print(' model:', (ml[0] or '')[:300]); print(' impl :', (il[0] or '')[:300]); print(err[-1500:])
     return 0 if (ml[0] or '').split()[1:3] == (il[0] or '').split()[1:3] else 1
